@@ -3,6 +3,7 @@
 Storage simulation: physical batches hold the election's cards; the manifest is derived from them
 with a shortfall (cards nobody accounted for) and empty batches; auditors fetch what the software's
 retrieval list says, by (batch, position)."""
+import bisect
 import copy
 
 import pandas as pd
@@ -22,7 +23,7 @@ RULE = ("one run = one physical storage layout (1..many batches, sizes >= 0), a 
         "phantom batch or a boundary number) involved; distinct = distinct event-log digest")
 ASSUMPTIONS = [
     "Dominion sample numbers are 1-based (1..bound), Hart 0-based (0..bound-1), as the two lookups document",
-    "batch labels (tabulator, batch) are unique, for Hart batch names alone are unique; a sample lists each number once (the lookup tables are keyed by card identifier)",
+    "batch labels (tabulator, batch) are unique, for Hart batch names alone are unique; a sample may list a number more than once (drawn with replacement): the lookup tables are keyed by card identifier, so such a card's recorded selection order may be any one of its draws",
 ]
 COMPONENTS = {
     "real": ["Dominion.prep_manifest", "Hart.prep_manifest", "Dominion.sample_from_manifest", "Hart.sample_from_manifest",
@@ -31,7 +32,8 @@ COMPONENTS = {
 }
 PROBES = ["empty batch crossed", "phantom batch hit", "leading empty batch", "trailing empty batch", "manifest larger than bound",
           "manifest smaller than CVR count", "single batch", "whole range sampled", "phantom CVR in CVR-driven lookup",
-          "another manifest looked up earlier in the same process", "prepared manifest prepared again"]
+          "another manifest looked up earlier in the same process", "prepared manifest prepared again",
+          "a sample number drawn more than once", "manifest of more than 100000 cards"]
 
 
 def generate(rng, tier):
@@ -45,6 +47,10 @@ def generate(rng, tier):
     tab = rng.randint(1, 50)
     names = rng.sample(range(1, 9), nb) if nb <= 8 and rng.chance(0.5) else [100 + i for i in range(nb)]
     batches = [{"tab": str(tab + i // 3), "batch": str(names[i]), "n": s} for i, s in enumerate(sizes)]
+    huge = rng.chance(0.04)
+    if huge:  # a real county: hundreds of thousands of cards, a bound that exceeds the manifest by a card or two
+        sizes = [rng.randint(20000, 180000) if s else 0 for s in sizes]
+        batches = [dict(b, n=s) for b, s in zip(batches, sizes)]
     total = sum(sizes)
     rel = rng.wpick([("equal", 3), ("larger", 4), ("smaller", 1)])
     bound = total if rel == "equal" else (total + rng.randint(1, 6) if rel == "larger" else total - rng.randint(1, total))
@@ -53,14 +59,28 @@ def generate(rng, tier):
     lo = 1 if vendor == "dominion" else 0
     valid = list(range(lo, lo + max(bound, 0)))
     mode = rng.pick(["whole", "whole", "subset"])
-    sample = list(valid)
-    rng.shuffle(sample)
-    if mode == "subset" and sample:
-        sample = sample[: rng.randint(1, len(sample))]
+    if huge:
+        edges = {lo, lo + max(bound, 0) - 1}
+        acc = 0
+        for s_ in sizes:
+            acc += s_
+            edges.update({lo + acc - 2, lo + acc - 1, lo + acc, lo + acc + 1})
+        edges.update(rng.randint(lo, lo + max(bound, 1) - 1) for _ in range(6))
+        sample = sorted(e for e in edges if lo <= e < lo + max(bound, 0))
+        rng.shuffle(sample)
+    else:
+        sample = list(valid)
+        rng.shuffle(sample)
+        if mode == "subset" and sample:
+            sample = sample[: rng.randint(1, len(sample))]
+    if sample and not huge and rng.chance(0.12):
+        # a sample drawn with replacement lists a number more than once
+        for _ in range(rng.randint(1, 3)):
+            sample.insert(rng.randint(0, len(sample)), rng.pick(sample))
     # other storage layouts looked up earlier in the same process (an earlier county, an earlier round): same number
     # of batches and the same total, other sizes
     prelude = []
-    for _ in range(rng.randint(0, 2)):
+    for _ in range(0 if huge else rng.randint(0, 2)):
         alt = list(sizes)
         rng.shuffle(alt)
         if len(alt) >= 2 and rng.chance(0.7):
@@ -75,7 +95,9 @@ def generate(rng, tier):
             # the spreadsheet's row labels need not be 0..n-1 in row order (sorted, filtered or concatenated sheets)
             "index": rng.pick([None, None, rng.perm(nb), [10 * (i + 1) for i in range(nb)]]),
             "reprep": rng.pick([None, None, "same", "larger", "smaller"]),
-            "cvr_sample": rng.sample(range(n_list), rng.randint(0, min(n_list, 12))) if n_list else []}
+            "cvr_sample": rng.sample(range(n_list), rng.randint(0, min(n_list, 12))) if n_list and not huge else [],
+            # the CVR's position field is the exporter's business: the card's number, nothing, or a 0-based rank
+            "card_in_batch": rng.pick(["pos", "pos", "none", "rank0"])}
 
 
 def raw_manifest(case):
@@ -199,18 +221,28 @@ def execute(case):
             out.violate("C17.a", f"{vendor}/raised-{type(e).__name__}", f"sample_from_manifest raised {e!r} for valid numbers {sample[:8]}")
             return out
         # reference: physical storage.  the k-th card overall (k = 1..) lives in batch b at position p (1-based)
-        where = []
         labels = [(b["tab"], b["batch"]) for b in batches] + ([("phantom", "1")] if bound > total else [])
-        for bi, s_ in enumerate(exp_sizes):
-            for p in range(1, s_ + 1):
-                where.append((bi, p))
+        ends = []
+        acc = 0
+        for s_ in exp_sizes:
+            acc += s_
+            ends.append(acc)
         idcol = 5 if vendor == "dominion" else 4
         by_id = {c[idcol]: c for c in cards}
         fetched = []
         exp_ph = []
+        drawn_at = {}
+        for i, s in enumerate(sample):
+            drawn_at.setdefault(s, []).append(i)
+        repeats = len(drawn_at) != len(sample)
+        if repeats:
+            out.probe("a sample number drawn more than once")
+        if total > 100000:
+            out.probe("manifest of more than 100000 cards")
         for i, s in enumerate(sample):
             k = s if vendor == "dominion" else s + 1  # which physical card the number designates
-            bi, p = where[k - 1]
+            bi = bisect.bisect_left(ends, k)
+            p = k - (ends[bi - 1] if bi else 0)
             pos = p if vendor == "dominion" else p - 1
             tab, batch = labels[bi]
             cid = f"{tab}-{batch}-{pos}"
@@ -234,14 +266,18 @@ def execute(case):
                 want = [(f"box{1 + bi // 2}" if labels[bi][0] != "phantom" else got_row[0]), str(tab), str(batch), pos]
             if got_row != want:
                 out.violate("C17.a", f"{vendor}/retrieval-row", f"card {cid}: the retrieval list says {got_row}, storage says {want}")
-            if order.get(cid, {}).get("selection_order") != i:
+            if order.get(cid, {}).get("selection_order") not in drawn_at[s]:
+                # (a card drawn several times has one table entry: any of its draws is a truthful selection order)
                 out.violate("C17.b", f"{vendor}/selection-order",
-                            f"card {cid} was drawn {i}-th but its recorded selection order is {order.get(cid)}")
+                            f"card {cid} was drawn at position(s) {drawn_at[s]} but its recorded selection order is {order.get(cid)}")
             fetched.append(cid)
-        if len(set(fetched)) != len(fetched) or len(cards) != len(sample):
-            out.violate("C17.a", f"{vendor}/not-injective", f"{len(sample)} sample numbers map to {len(set(fetched))} distinct cards")
+        if len(set(fetched)) != len(drawn_at) or len(by_id) != len(drawn_at) or (not repeats and len(cards) != len(sample)):
+            out.violate("C17.a", f"{vendor}/not-injective", f"{len(drawn_at)} distinct sample numbers map to {len(set(fetched))} distinct cards "
+                                                            f"({len(by_id)} on the retrieval list)")
         out.ev("lookup", fetched)
         got_ph = sorted(m.id for m in mvr_ph)
+        if repeats:
+            got_ph, exp_ph = sorted(set(got_ph)), sorted(set(exp_ph))
         if got_ph != sorted(exp_ph) or any(not m.phantom for m in mvr_ph):
             out.violate("C17.c", f"{vendor}/phantoms", f"phantom manual records {got_ph[:6]} but the phantom batch holds {sorted(exp_ph)[:6]}")
         out.units["draws"] += len(sample)
@@ -254,7 +290,8 @@ def execute(case):
         for bi, b in enumerate(batches):
             for p in range(1, b["n"] + 1):
                 cid = f"{b['tab']}-{b['batch']}-{p}" if vendor == "dominion" else f"{b['batch']}_{p}"
-                cvrs.append(ns.CVR(id=cid, votes={}, card_in_batch=p))
+                cib = {"pos": p, "none": None, "rank0": p - 1}[case.get("card_in_batch", "pos")]
+                cvrs.append(ns.CVR(id=cid, votes={}, card_in_batch=cib))
         for k in range(max(0, bound - total)):
             cvrs.append(ns.CVR(id=f"phantom-1-{k + 1}", votes={}, phantom=True))
         cs = [i for i in cs if i < len(cvrs)]
